@@ -375,22 +375,32 @@ def respell(tree, ann, rng, kinds):
         return "".join(out), "".join(cd)
 
     def chars(s, in_text_ok=True):
-        """character data with optional comments / PIs in the middle"""
+        """character data with optional runs of comments / PIs in front, in the middle and behind"""
         if s is None or s == "":
             return ""
-        cut = None
-        if in_text_ok and ("comment_text" in kinds or "pi_text" in kinds) and rng.random() < 0.5:
-            cut = rng.randint(0, len(s))
-        if cut is None:
+        allowed = [k for k in ("comment_text", "pi_text") if k in kinds]
+        if not (in_text_ok and allowed and rng.random() < 0.5):
             return esc_text(s, text_mode, rng, encodable)
-        which = rng.choice([k for k in ("comment_text", "pi_text") if k in kinds])
-        if which == "comment_text":
-            mid = "<!--t-->"
-            info["comment_in_text"] = True
-        else:
-            mid = "<?t x?>"
-            info["pi_in_text"] = True
-        return esc_text(s[:cut], text_mode, rng, encodable) + mid + esc_text(s[cut:], text_mode, rng, encodable)
+
+        def run():
+            out = []
+            for _ in range(rng.choice([1, 1, 2, 3])):   # adjacent nodes: each is the other's sibling
+                if rng.choice(allowed) == "comment_text":
+                    out.append("<!--t-->")
+                    info["comment_in_text"] = True
+                else:
+                    out.append("<?t x?>")
+                    info["pi_in_text"] = True
+            return "".join(out)
+
+        cuts = sorted({rng.randint(0, len(s)) for _ in range(rng.choice([1, 1, 2, 3]))})
+        parts, last = [], 0
+        for c in cuts:
+            parts.append(esc_text(s[last:c], text_mode, rng, encodable))
+            parts.append(run())
+            last = c
+        parts.append(esc_text(s[last:], text_mode, rng, encodable))
+        return "".join(parts)
 
     def pad(v):
         return rng.choice(PAD_CHOICES) * rng.randint(0, 1) + v + rng.choice(PAD_CHOICES) * rng.randint(0, 1)
